@@ -52,10 +52,14 @@ static void ref_encode(void)
 
 void qmail_put(struct qmail *qq, char *s, unsigned int len)
 {
-  CHECK(qq == &qqt && len == 1, "blast hands the queue one byte at a time");
-  CHECK(outlen < W + 2, "decoded output never longer than the wire (harness sizing)");
-  ASSUME(outlen < W + 2);
-  outb[outlen++] = (unsigned char) s[0];
+  unsigned int i;
+  CHECK(qq == &qqt, "blast writes to the queue connection qqt only");
+  for (i = 0; i < W + 2; ++i) {
+    if (i >= len) break;
+    CHECK(outlen < W + 2, "decoded output never longer than the wire (harness sizing)");
+    ASSUME(outlen < W + 2);
+    outb[outlen++] = (unsigned char) s[i];
+  }
 }
 void qmail_fail(struct qmail *qq) { CHECK(0, "no databytes limit configured"); }
 
